@@ -18,7 +18,7 @@ const codePkg = Module + "/analysis/code"
 func init() {
 	Register(&Property{
 		ID:       "C20",
-		Patterns: []string{"./analysis/report", "./analysis/code", "./go/loader", "./lintcmd/..."},
+		Patterns: []string{"./..."},
 		NeedSSA:  true,
 		Explanation: "Decides the wiring of version-restricted reporting: the role (minimum/maximum × language/stdlib) of every Options version field is derived from the comparison that drops the diagnostic in report.Report, and each exported option constructor must store into the field whose role its name promises (R20.1); " +
 			"the -go flag value reaches types.Config.GoVersion and the cache key, and the module's go directive is used on the default path (R20.2); " +
@@ -52,6 +52,8 @@ func init() {
 				Old: "\t\t\tFileVersions: make(map[*ast.File]string),\n", New: ""},
 			{Name: "stdlib-flip-filetag", File: "analysis/code/code.go", Rule: "R20.4", KeyPart: "StdlibVersion",
 				Old: "\t\t\tif version.Compare(nf, n) == 1 {\n\t\t\t\treturn nf\n\t\t\t}", New: "\t\t\tif version.Compare(nf, n) == -1 {\n\t\t\t\treturn nf\n\t\t\t}"},
+			{Name: "check-uses-malformed-version", File: "simple/s1005/s1005.go", Rule: "R20.5", KeyPart: "s1005",
+				Old: "\t\t\t\treport.MinimumLanguageVersion(\"go1.4\"),\n\t\t\t\treport.Fixes(edit.Fix(\"Remove assignment to blank identifier\", edit.Delete(edit.Range{rs.Key.End(), rs.Value.End()}))))", New: "\t\t\t\treport.MinimumLanguageVersion(\"1.4\"),\n\t\t\t\treport.Fixes(edit.Fix(\"Remove assignment to blank identifier\", edit.Delete(edit.Range{rs.Key.End(), rs.Value.End()}))))"},
 			{Name: "stdlib-121-boundary", File: "analysis/code/code.go", Rule: "R20.4", KeyPart: "StdlibVersion",
 				Old: "\t\tif version.Compare(n, \"go1.21\") == -1 {", New: "\t\tif version.Compare(n, \"go1.21\") != 1 {"},
 		},
@@ -374,6 +376,46 @@ func runC20(c *Ctx) {
 		c.Floor("R20.4", 10)
 		sv := c.Func("analysis/code", "StdlibVersion")
 		evalStdlibVersion(c, sv)
+	})
+	c.Rule("R20.5", func() {
+		c.Floor("R20.5", 4)
+		setters := map[string]bool{reportPkg + ".MinimumLanguageVersion": true, reportPkg + ".MaximumLanguageVersion": true, reportPkg + ".MinimumStdlibVersion": true, reportPkg + ".MaximumStdlibVersion": true}
+		valid := regexp.MustCompile(`^go1(\.[0-9]+){1,2}$`)
+		n := 0
+		for _, fn := range c.ModuleFuncs() {
+			if strings.Contains(FuncPkgPath(fn), "/internal/xtools-internal") {
+				continue
+			}
+			for _, ci := range Calls(fn, false) {
+				name := CalleeName(ci.Common())
+				var arg ssa.Value
+				switch {
+				case setters[name]:
+					arg = ci.Common().Args[0]
+				case name == "go/version.Compare" && FuncPkgPath(fn) != reportPkg && FuncPkgPath(fn) != codePkg:
+					// direct comparisons in checks: the constant operand
+					for _, a := range ci.Common().Args {
+						if _, ok := a.(*ssa.Const); ok {
+							arg = a
+						}
+					}
+				}
+				if arg == nil {
+					continue
+				}
+				n++
+				sv, isConst := constStringVal(arg)
+				key := strings.TrimPrefix(FuncKey(fn), Module+"/") + "::" + c.CallText(ci.Pos())
+				if !isConst {
+					c.Check(key, ci.Pos(), true, "version bound computed at run time")
+					continue
+				}
+				c.Check(key, ci.Pos(), valid.MatchString(sv), "the version bound %q is not a valid Go version string (go1.N): go/version.Compare orders invalid versions before all valid ones, so the bound would silently always or never apply", sv)
+			}
+		}
+		if n < 4 {
+			c.Undecided("found only %d version bounds in checks", n)
+		}
 	})
 }
 
